@@ -4,6 +4,7 @@ import (
 	"encoding/xml"
 	"fmt"
 	"io"
+	"math"
 	"regexp"
 	"sort"
 	"strconv"
@@ -298,7 +299,7 @@ func (d *TTMLInDuration) UnmarshalText(i []byte) (err error) {
 			}
 
 			// Update duration
-			d.d = time.Duration(value * float64(timebase.Nanoseconds()))
+			d.d = time.Duration(math.Round(value * float64(timebase.Nanoseconds())))
 		}
 		return
 	}
